@@ -89,7 +89,8 @@ type Req struct {
 
 // Op is one element of a case's operation list.
 type Op struct {
-	K string `json:"k"` // msg refresh resp req
+	K string `json:"k"` // msg refresh resp req remove reset
+	T string `json:"t,omitempty"` // remove / reset: target name
 	N *Noti  `json:"n,omitempty"`
 	R *Resp  `json:"r,omitempty"`
 	Q *Req   `json:"q,omitempty"`
